@@ -57,6 +57,9 @@ class Result:
             f2['cells_failing'] = u['count']
             json.dump(f2, open(path, 'w'), indent=1)
             ok, text = replay_fn(f) if replay_fn else (True, '')
+            if ok and text:
+                f2['replay_note'] = text
+                json.dump(f2, open(path, 'w'), indent=1)
             if not ok:
                 log('UNREPRODUCED property=%s key=%s (%s) -- harness error, witness did not replay identically' % (self.prop, k, text))
                 rc = 2 if rc != 1 else rc
@@ -127,8 +130,13 @@ class BX:
                     ks.add('|'.join([op, 'asan:' + vlib.symbolise_sig(binary, sig)]))
             keys.append(ks)
         want = '|'.join([f['op'], f['sig']])
-        ok = all(want in ks for ks in keys)
-        return ok, ('' if ok else 'wanted %s, replays gave %s' % (want, [sorted(k)[:6] for k in keys]))
+        if all(want in ks for ks in keys):
+            return True, ''
+        # the replay runs exactly this sub-cell: a failure whose manifestation depends on heap layout (wild pointer, uninitialised
+        # table) may surface under another operation/frame; accept when both replays fail and agree with each other
+        if keys[0] and keys[0] == keys[1]:
+            return True, 'manifestation on replay: %s' % sorted(keys[0])[:3]
+        return False, 'wanted %s, replays gave %s' % (want, [sorted(k)[:6] for k in keys])
 
     def replay(self, prop, path):
         f = json.load(open(path))
@@ -454,3 +462,132 @@ class SX:
 _sx = SX()
 for _p in ['C09', 'C10', 'C11']:
     ENGINES[_p] = _sx
+
+
+# ------------------------------------------------------------------------------------------------ KX
+class KX:
+    PARTS = {'C17': ['vbyte', 'logseq', 'dacvls'], 'C18': ['codes'], 'C19': ['bits', 'wt'], 'C20': ['repair']}
+    DEADLINE = {'quick': 240, 'thorough': 2700}
+    ASSUME = ['inputs: exhaustive up to the stated bounds, or all vectors within the stated Hamming distance of the base patterns',
+              'oracles: textbook definitions on plain arrays (src/kx.cpp)', 'gcc 12 AddressSanitizer in recover mode']
+    # extra dictionary-level parts (run through BX) that belong to the component properties
+    BX_EXTRA = {
+        'C18': ('C01', {'quick': ['sigma=3,L=2,pal=abc+spr,stretch=1,pd=min,nf=1,maxn=4,kinds=HTFC+HHTFC+HASHHF+HASHUFFDAC'],
+                        'thorough': ['sigma=3,L=2,pal=abc+spr+sgn,stretch=1,pd=quick,nf=1,kinds=HTFC+HHTFC+HASHHF+HASHUFFDAC',
+                                     'sigma=2,L=3,pal=abc,stretch=1,pd=quick,nf=1,kinds=HTFC+HHTFC+HASHHF+HASHUFFDAC']}),
+        'C20': ('C01', {'quick': ['sigma=3,L=2,pal=abc,stretch=1,pd=min,nf=1,maxn=4,kinds=RPDAC+RPFC+HASHRPF+HASHRPDAC+RPHTFC'],
+                        'thorough': ['sigma=3,L=2,pal=abc,stretch=1,pd=quick,nf=1,kinds=RPDAC+RPFC+HASHRPF+HASHRPDAC+RPHTFC',
+                                     'sigma=2,L=4,pal=abc,stretch=1,pd=min,nf=1,co=1,kinds=RPDAC+RPFC+HASHRPF+HASHRPDAC+RPHTFC']}),
+        'C17': ('C01', {'quick': ['sigma=3,L=2,pal=abc,stretch=1,pd=min,nf=1,maxn=4,kinds=HASHUFFDAC+RPDAC+HASHRPDAC'],
+                        'thorough': ['sigma=3,L=2,pal=abc,stretch=1+130,pd=quick,nf=1,kinds=HASHUFFDAC+RPDAC+HASHRPDAC']}),
+    }
+
+    def run_part(self, binary, prop, part, tier, only=None, nshards=None):
+        nshards = nshards or vlib.NPROC
+        os.makedirs(SCRATCH, exist_ok=True)
+        procs = []
+        for i in range(nshards):
+            out = os.path.join(SCRATCH, 'kx.%s.%s.%d.%d.json' % (prop, part, os.getpid(), i))
+            cmd = [binary, '--prop', prop, '--part', part, '--tier', tier, '--shard', '%d/%d' % (i, nshards), '--out', out]
+            if only is not None:
+                cmd += ['--only', only]
+            procs.append((subprocess.Popen(cmd, stdout=subprocess.DEVNULL, stderr=subprocess.PIPE), out))
+        tot = {'cases': 0, 'checks': 0, 'blocked_units': 0, 'failures': [], 'samples': []}
+        for p, out in procs:
+            _, err = p.communicate()
+            if p.returncode != 0 or not os.path.exists(out):
+                sys.stderr.write('kx shard failed rc=%s: %s\n' % (p.returncode, err.decode(errors='replace')[-1500:]))
+                raise SystemExit(2)
+            d = json.load(open(out)); os.unlink(out)
+            for k in ('cases', 'checks', 'blocked_units'):
+                tot[k] += d[k]
+            tot['failures'] += d['failures']
+            for smp in d['samples']:
+                if smp not in tot['samples'] and len(tot['samples']) < 6:
+                    tot['samples'].append(smp)
+        for f in tot['failures']:
+            f['sig'] = vlib.symbolise_sig(binary, f['sig'])
+        return tot
+
+    def to_failure(self, prop, part, f):
+        return {'prop': prop, 'kind': f['comp'], 'params': part, 'src': 'component', 'op': f['op'], 'sig': f['sig'], 'preds': 'always',
+                'strings': '', 'arg': '', 'detail': f['detail'], 'count': f['count'], 'input': f['input'], 'engine': 'KX', 'part': part}
+
+    def replay_one(self, binary, f, tier):
+        keys = []
+        for _ in range(2):
+            t = self.run_part(binary, f['prop'], f['part'], tier, only=f['input'], nshards=1)
+            keys.append(set('|'.join([x['comp'], x['op'], x['sig']]) for x in t['failures']))
+        want = '|'.join([f['kind'], f['op'], f['sig']])
+        if all(want in k for k in keys):
+            return True, ''
+        comp = f['kind'] + '|'
+        if all(any(x.startswith(comp) for x in k) for k in keys):
+            return True, 'manifestation on replay: %s' % sorted(x for x in keys[0] if x.startswith(comp))[:3]
+        return False, 'wanted %s got %s' % (want, [sorted(k)[:5] for k in keys])
+
+    def replay(self, prop, path):
+        f = json.load(open(path))
+        if f.get('engine') != 'KX':
+            return BX().replay(prop, path)
+        b = vlib.build_tool('asan', 'kx')
+        ok, text = self.replay_one(b, f, f.get('tier', 'thorough'))
+        log(('REPRODUCED ' if ok else 'NOT-REPRODUCED ') + path + ' ' + text)
+        return 1 if ok else 0
+
+    def run(self, prop, tier, seed, deadline=None):
+        t0 = time.time()
+        deadline = deadline or float(os.environ.get('VERIF_DEADLINE', self.DEADLINE[tier]))
+        binary = vlib.build_tool('asan', 'kx')
+        res = Result(prop)
+        cov = {'states': 0, 'transitions': 0, 'traces_validated_against_impl': 0, 'samples': [], 'exhaustive': True, 'parts': [], 'blocked_units': 0}
+        for part in self.PARTS[prop]:
+            t = self.run_part(binary, prop, part, tier)
+            cov['states'] += t['cases']; cov['transitions'] += t['checks']; cov['traces_validated_against_impl'] += t['cases']
+            cov['blocked_units'] += t['blocked_units']
+            cov['parts'].append({'part': part, 'cases': t['cases'], 'checks': t['checks'], 'blocked_units': t['blocked_units']})
+            cov['samples'] += t['samples'][:3]
+            for f in t['failures']:
+                ff = self.to_failure(prop, part, f); ff['tier'] = tier
+                res.add(ff)
+        # dictionary-level confirmation through BX (encode/decode pairs at every alignment the layouts produce, etc.)
+        bx_fail = []
+        if prop in self.BX_EXTRA:
+            oracle, scopes = self.BX_EXTRA[prop]
+            bxe = BX(); bxb = vlib.build_tool('asan', 'bx')
+            for sc in scopes[tier]:
+                left = deadline - (time.time() - t0)
+                if left < 5:
+                    cov['exhaustive'] = False
+                    continue
+                m = bxe.run_scope(bxb, oracle, sc, left, [])
+                cov['states'] += m['objects']; cov['transitions'] += m['transitions']; cov['traces_validated_against_impl'] += m['subcells']
+                cov['parts'].append({'part': 'dictionary-level (BX oracle %s)' % oracle, 'scope': sc, 'units': m['units'], 'subcells': m['subcells'], 'objects': m['objects'],
+                                     'calls': m['transitions'], 'blocked': m['blocked'], 'complete': m['complete']})
+                if not m['complete']:
+                    cov['exhaustive'] = False
+                for f in m['failures']:
+                    f['prop'] = prop          # reported under the component property
+                    f['flavour'] = 'asan'; f['via'] = oracle
+                    res.add(f)
+        bxe = BX()
+
+        def rp(f):
+            if f.get('engine') == 'KX':
+                return self.replay_one(binary, f, tier)
+            g = dict(f); g['prop'] = f.get('via', 'C01')
+            ok, text = bxe.replay_one(vlib.build_tool('asan', 'bx'), g)
+            return ok, text
+        rc = res.finish(rp)
+        cov['known_findings_hit'] = {k: v['count'] for k, v in res.known_hits.items()}
+        cov['rule'] = 'states = component instances built (cases); transitions = individual answers compared with the plain-array definition; every case runs on the real component code'
+        if not cov['samples']:
+            cov['samples'] = [{'note': 'nothing executed'}]
+        vlib.write_evidence(prop, tier, seed, cov, time.time() - t0, len(res.unknown), self.ASSUME)
+        log('%s %s: %d cases, %d checks, %d blocked units, exhaustive=%s, %.1fs, rc=%d' % (prop, tier, cov['states'], cov['transitions'], cov['blocked_units'], cov['exhaustive'], time.time() - t0, rc))
+        return rc
+
+
+_kx = KX()
+for _p in ['C17', 'C18', 'C19', 'C20']:
+    ENGINES[_p] = _kx
